@@ -62,7 +62,9 @@ def verify(modname, qual, make_args, post, ex=None, node=None, ordinal=None, set
                 return Verdict(FAILED, f'{r} [path: {"; ".join(o.choices[-6:])}]', time.time() - t0, cex={'path': o.choices, 'outcome': repr(o)[:300]}, paths=len(outs))
     except (Unsupported, PathLimit) as e:
         return Verdict(UNDECIDED, f'{type(e).__name__} in postcondition: {e}', time.time() - t0)
-    return Verdict(PROVED, f'{len(outs)} path(s), {ex.n_queries} solver queries', time.time() - t0, paths=len(outs))
+    v = Verdict(PROVED, f'{len(outs)} path(s), {ex.n_queries} solver queries', time.time() - t0, paths=len(outs))
+    v.returns = sum(1 for o in outs if o.kind == 'return')          # reachability cover: how many explored paths reach a return
+    return v
 
 
 # ------------------------------------------------------------------ SLY helpers
